@@ -1154,8 +1154,10 @@ def gen_sysnotif(seed, mode="loop"):
     for i in range(1, nm + 1):
         sc.mod(i, "s%d" % i, 0, r.choice([0, 4, 6, 7, 2]))
         sc.cb(i, "eval", "*", [], ret=1)
-        sc.cb(i, "start", "*", [], ret=1 if r.random() < 0.9 else 0)
-        sc.cb(i, "stop", "*", [])
+        # transitions nested in the lifecycle callbacks themselves: a start callback that pauses / stops its module or
+        # refuses the start, a stop callback that starts the module again
+        sc.cb(i, "start", "*", [(r.choice(["pause", "stop"]), -1)] if r.random() < 0.12 else [], ret=1 if r.random() < 0.85 else 0)
+        sc.cb(i, "stop", "*", [("start", -1)] if r.random() < 0.08 else [])
         sc.main.append(("reg", i))
         if r.random() < 0.7:
             sc.main.append(("start", i))
